@@ -34,16 +34,17 @@ type storeCfg struct {
 	ioConc      int  // number of value logs when not embedded
 	fileSize    int
 	compression int
+	vlogCache   int // Options.VLogCacheSize (0 = no value cache)
 }
 
 var configs = []storeCfg{
-	{"v1-single", 1, false, 1, 256, appendable.NoCompression},
-	{"v0-single", 0, false, 1, 200, appendable.NoCompression},
-	{"v1-embedded", 1, true, 1, 300, appendable.NoCompression},
-	{"v0-embedded", 0, true, 1, 4096, appendable.NoCompression},
-	{"v1-multi", 1, false, 3, 128, appendable.NoCompression},
-	{"v0-multi", 0, false, 2, 4096, appendable.NoCompression},
-	{"v1-flate", 1, false, 1, 512, appendable.FlateCompression},
+	{"v1-single", 1, false, 1, 256, appendable.NoCompression, 0},
+	{"v0-single-vcache", 0, false, 1, 200, appendable.NoCompression, 64},
+	{"v1-embedded-vcache", 1, true, 1, 300, appendable.NoCompression, 64},
+	{"v0-embedded", 0, true, 1, 4096, appendable.NoCompression, 0},
+	{"v1-multi", 1, false, 3, 128, appendable.NoCompression, 0},
+	{"v0-multi-vcache", 0, false, 2, 4096, appendable.NoCompression, 64},
+	{"v1-flate-vcache", 1, false, 1, 512, appendable.FlateCompression, 64},
 }
 
 // 0 embedded, 1 single value log, 2 several value logs (Tie.C09.vmode_of)
@@ -66,7 +67,7 @@ func (c storeCfg) opts() *store.Options {
 	o := store.DefaultOptions().WithSynced(false).WithMaxConcurrency(2).WithFileSize(c.fileSize).
 		WithMaxTxEntries(maxTxEntries).WithMaxKeyLen(maxKeyLen).WithMaxValueLen(maxValueLen).
 		WithWriteTxHeaderVersion(c.ver).WithEmbeddedValues(c.embedded).WithMaxIOConcurrency(c.ioConc).
-		WithCompressionFormat(c.compression).
+		WithCompressionFormat(c.compression).WithVLogCacheSize(c.vlogCache).
 		WithTimeFunc(func() time.Time { clock++; return time.Unix(clock, 0) }).
 		WithLogger(quietLogger())
 	return o
